@@ -213,6 +213,8 @@ class Evaluator(PE):
                 els, open_ = self.iter_elems(a, p, e)
                 return [(Lst(els, open_, name=a.name, opens=self.last_opens if open_ else ()), p)]
             return [(self.opaque_call(name, args, kwargs, e, args), p)]
+        if obj is builtins.reversed and len(args) == 1 and isinstance(args[0], (Lst, Tup)) and not getattr(args[0], "open", False):
+            return [(Lst(list(reversed(args[0].items)), False, name="reversed"), p)]
         if obj is builtins.tuple and not args:
             return [(Tup([]), p)]
         if obj is builtins.list and not args:
